@@ -1,0 +1,14 @@
+//go:build verif
+
+// Contracts for the verifier in /verif (comment-only file; contributes no declarations).
+package services
+
+// C10: the queue factory that the strategy-based queue remedy is given at start-up. The plugin keeps its queues per
+// (remedy, strategy) and asks the factory only when it has none for that key - also after a policy reload changed a
+// remedy's strategy. Whatever the factory remembers, what it hands out is a queue that works with the strategy of the
+// key it was asked for (the constructor is proved in utils/queue).
+//@ func Initialize.func1
+//@   prop C10
+//@   modifies now
+//@   allocates DelayedPriorityQueue, map, ContextLogger
+//@   ensures[a-queue-with-the-strategy-of-the-key-asked-for] typeis(result, *queue.DelayedPriorityQueue) && result.(*queue.DelayedPriorityQueue) != nil && result.(*queue.DelayedPriorityQueue).strategy == queueKey.Strategy
